@@ -444,19 +444,19 @@ theorem effHash_isSome {t : HT} (_g : Geom t) (hr : t.hash.isSome) : t.effHash.i
   · simp [h, hr]
 
 theorem resize_spec (oracle : Nat → Bool) {t : HT} (n : Nat) (f : Option HashId) (inv : Inv hf t) :
-    (resize hf oracle t n f).Spec (fun _ t' =>
+    (resize hf oracle t n f).Spec (fun tr t' =>
       Inv hf t' ∧ List.Perm (nodes t') (nodes t) ∧ t'.size = t.size ∧
       (Satisfiable oracle t n → t'.effCount = n ∧ t'.effHash = some (reqHash t f) ∧ t'.hash.isSome) ∧
-      (¬ Satisfiable oracle t n → t' = t)) := by
+      (¬ Satisfiable oracle t n → t' = t) ∧ ∀ c ∈ tr.calls, 1 ≤ c.m) := by
   rw [resize_unfold]
   by_cases hn0 : n = 0
   · rw [if_pos hn0]
-    refine R.Spec.pure ⟨inv, List.Perm.refl _, rfl, fun hs => ?_, fun _ => rfl⟩
+    refine R.Spec.pure ⟨inv, List.Perm.refl _, rfl, fun hs => ?_, fun _ => rfl, by simp⟩
     have := hs.1; omega
   rw [if_neg hn0]
   have hn1 : 1 ≤ n := by omega
   refine R.Spec.bind (ensureCapacity_spec oracle t hn1) ?_
-  rintro tr1 t1 ⟨_, _, ht1⟩
+  rintro tr1 t1 ⟨hc1, _, ht1⟩
   -- facts about t1 common to both shapes
   have hscal : t1.count = t.count ∧ t1.hash = t.hash ∧ t1.cst = t.cst ∧ t1.rhHash = t.rhHash ∧
       t1.rhCount = t.rhCount ∧ t1.clean = t.clean ∧ t1.size = t.size := by
@@ -503,7 +503,8 @@ theorem resize_spec (oracle : Nat → Bool) {t : HT} (n : Nat) (f : Option HashI
       refine (resizeTail_fresh hf f fr1 hn1 hc).mono ?_
       rintro tr3 t5 ⟨rfl, inv5, h1, h2, h3, h4, h5, h6, h7⟩
       have hn : nodes t = [] := nodes_nil_of_empty fr.empty
-      refine ⟨inv5, by rw [h5, hn], by rw [h4, fr.size], fun _ => ⟨?_, ?_, ?_⟩, fun hns => absurd (hsat.mpr hc) hns⟩
+      refine ⟨inv5, by rw [h5, hn], by rw [h4, fr.size], fun _ => ⟨?_, ?_, ?_⟩, fun hns => absurd (hsat.mpr hc) hns,
+        by simp [hc1]⟩
       · unfold HT.effCount; rw [h1]; exact h3
       · unfold HT.effHash reqHash HT.effHash; rw [h1, h2, fr.rh, fr.hash]; rfl
       · rw [h2]; rfl
@@ -512,7 +513,7 @@ theorem resize_spec (oracle : Nat → Bool) {t : HT} (n : Nat) (f : Option HashI
       rw [if_neg hcond]
       have := hunsat hc
       subst this
-      exact R.Spec.pure ⟨inv, List.Perm.refl _, rfl, fun hs => absurd (hsat.mp hs) hc, fun _ => rfl⟩
+      exact R.Spec.pure ⟨inv, List.Perm.refl _, rfl, fun hs => absurd (hsat.mp hs) hc, fun _ => rfl, by simp [hc1]⟩
   | some h =>
     have hr : t.hash.isSome := by rw [hh]; rfl
     have inv1 : Inv hf t1 := by
@@ -527,13 +528,19 @@ theorem resize_spec (oracle : Nat → Bool) {t : HT} (n : Nat) (f : Option HashI
     by_cases hcond : t1.bk.size ≠ 0 ∧ n ≤ t1.bk.size ∧ (n ≠ t1.effCount ∨ (f ≠ none ∧ f ≠ t1.effHash))
     · rw [if_pos hcond]
       refine R.Spec.bind (rehash_spec hf inv1) ?_
-      rintro tr2 t2 ⟨inv2, hs2, hsz2, hcst2, hsize2, hperm2, _, hcnt2, hhash2, _⟩
+      rintro tr2 t2 ⟨inv2, hs2, hsz2, hcst2, hsize2, hperm2, _, hcnt2, hhash2, hnop2, hcalls2⟩
+      have hpos2 : ∀ c ∈ tr2.calls, 1 ≤ c.m := by
+        intro c hc
+        by_cases hp1 : t1.rhHash.isSome
+        · rw [hcalls2 c hc]; exact (inv1.pend hp1).2.1
+        · have : tr2 = {} := (hnop2 (by simpa using hp1)).2
+          rw [this] at hc; simp at hc
       obtain ⟨h', hh'⟩ := Option.isSome_iff_exists.mp (effHash_isSome inv1.toGeom hr1)
       have hh2 : t2.hash = some h' := by rw [hhash2, hh']
       refine (resizeTail_ready hf f inv2 hs2 hh2 hn1 (by rw [hsz2]; exact hcond.2.1)).mono ?_
       rintro tr3 t5 ⟨rfl, inv5, h1, h2, h3, h4, h5, h6, h7, h8, h9⟩
       refine ⟨inv5, ?_, by rw [h7, hsize2, hscal.2.2.2.2.2.2], fun _ => ⟨?_, ?_, ?_⟩,
-        fun hns => absurd (hsat.mpr hcond.2.1) hns⟩
+        fun hns => absurd (hsat.mpr hcond.2.1) hns, by simpa [hc1] using hpos2⟩
       · rw [← hnodes1]; exact h9.trans hperm2
       · unfold HT.effCount; rw [h1]; exact h2
       · have : t2.effHash = t.effHash := by
@@ -544,7 +551,7 @@ theorem resize_spec (oracle : Nat → Bool) {t : HT} (n : Nat) (f : Option HashI
         unfold reqHash; rw [this]
       · rw [h5, hh2]; rfl
     · rw [if_neg hcond]
-      refine R.Spec.pure ⟨inv1, by rw [hnodes1], hscal.2.2.2.2.2.2, fun hs => ?_, fun hns => ?_⟩
+      refine R.Spec.pure ⟨inv1, by rw [hnodes1], hscal.2.2.2.2.2.2, fun hs => ?_, fun hns => ?_, by simp [hc1]⟩
       · have hle := hsat.mp hs
         have h3 : ¬ (n ≠ t1.effCount ∨ (f ≠ none ∧ f ≠ t1.effHash)) := by
           intro h3; exact hcond ⟨by omega, hle, h3⟩
@@ -573,10 +580,10 @@ variable (hf : HashId → Nat → Nat → Nat)
 /-! ### `cstl_hash_shrink_to_fit` -/
 
 theorem shrink_spec (oracle : Nat → Bool) {t : HT} (inv : Inv hf t) :
-    (shrink hf oracle t).Spec (fun _ t' =>
+    (shrink hf oracle t).Spec (fun tr t' =>
       Inv hf t' ∧ List.Perm (nodes t') (nodes t) ∧ t'.size = t.size ∧
       t'.effCount = t.effCount ∧ t'.effHash = t.effHash ∧ t'.hash.isSome = t.hash.isSome ∧
-      (t'.bk.size = t.bk.size ∨ t'.bk.size = t.effCount)) := by
+      (t'.bk.size = t.bk.size ∨ t'.bk.size = t.effCount) ∧ ∀ c ∈ tr.calls, 1 ≤ c.m) := by
   unfold shrink
   by_cases hc : t.effCount < t.bk.size
   · rw [if_pos hc]
@@ -585,21 +592,28 @@ theorem shrink_spec (oracle : Nat → Bool) {t : HT} (inv : Inv hf t) :
       | some h => rfl
       | none => have := (inv.unready hh).2.2; omega
     refine R.Spec.bind (rehash_spec hf inv) ?_
-    rintro tr1 t1 ⟨inv1, hs1, hsz1, hcst1, hsize1, hperm1, _, hcnt1, hhash1, _⟩
+    rintro tr1 t1 ⟨inv1, hs1, hsz1, hcst1, hsize1, hperm1, _, hcnt1, hhash1, hnop1, hcalls1⟩
+    have hpos1 : ∀ c ∈ tr1.calls, 1 ≤ c.m := by
+      intro c hc'
+      by_cases hp : t.rhHash.isSome
+      · rw [hcalls1 c hc']; exact (inv.pend hp).2.1
+      · have : tr1 = {} := (hnop1 (by simpa using hp)).2
+        rw [this] at hc'; simp at hc'
     have hr1 : t1.hash.isSome := by rw [hhash1]; exact effHash_isSome inv.toGeom hr
     have hc1 : 1 ≤ t1.count := inv1.ready hr1
     have hec1 : t1.effCount = t.effCount := by unfold HT.effCount; rw [hs1]; exact hcnt1
     have heh1 : t1.effHash = t.effHash := by unfold HT.effHash; rw [hs1]; exact hhash1
     refine (setCapacity_spec oracle (t := t1) hc1).mono ?_
-    rintro tr2 t2 ⟨_, _, h3⟩
+    rintro tr2 t2 ⟨hc2, _, h3⟩
+    have hposf : ∀ c ∈ (tr1.append tr2).calls, 1 ≤ c.m := by simpa [hc2] using hpos1
     rcases h3 with ⟨_, rfl, _⟩ | ⟨_, rfl⟩
     · have hub : t1.ubound ≤ t1.count := by unfold HT.ubound; rw [hs1]; exact Nat.le_refl _
-      refine ⟨inv1.realloc hf hr1 hub, ?_, hsize1, hec1, heh1, by show t1.hash.isSome = _; rw [hr1, hr], Or.inr ?_⟩
+      refine ⟨inv1.realloc hf hr1 hub, ?_, hsize1, hec1, heh1, by show t1.hash.isSome = _; rw [hr1, hr], Or.inr ?_, hposf⟩
       · rw [nodes_resizeArr (fun i b hb hi => inv1.beyond i b hb (by omega))]; exact hperm1
       · show (resizeArr t1.bk t1.count).size = t.effCount
         rw [size_resizeArr, hcnt1]
-    · exact ⟨inv1, hperm1, hsize1, hec1, heh1, by rw [hr1, hr], Or.inl hsz1⟩
+    · exact ⟨inv1, hperm1, hsize1, hec1, heh1, by rw [hr1, hr], Or.inl hsz1, hposf⟩
   · rw [if_neg hc]
-    exact R.Spec.pure ⟨inv, List.Perm.refl _, rfl, rfl, rfl, rfl, Or.inl rfl⟩
+    exact R.Spec.pure ⟨inv, List.Perm.refl _, rfl, rfl, rfl, rfl, Or.inl rfl, by simp⟩
 
 end Cstl.Hash
